@@ -718,8 +718,9 @@ package template
 //@   ensures member: !isnil(r) && !isnil(r.text)
 
 //@ func (e *escaper) template(name string) (r *template.Template)
-//@   serves C06 C08
+//@   serves C05 C06 C08
 //@   option embedded nameSpace.esc
+//@   defines r == esctemplate(e.ns, name)
 //@   requires !isnil(e.ns) && !isnil(e.ns.set)
 //@   requires members: forallkey(w, haskeym(e.ns.set, w) ==> !isnil(e.ns.set[w]) && !isnil(e.ns.set[w].text))
 
@@ -750,5 +751,6 @@ package template
 //@   requires derivedok: forallkey(w, haskeym(e.derived, w) ==> !isnil(e.derived[w]))
 //@   requires editkeys: forallref(p, haskeym(e.actionNodeEdits, p) || haskeym(e.templateNodeEdits, p) || haskeym(e.textNodeEdits, p) ==> !isnil(p))
 //@   ensures named: c.state == stateText ==> sameview(dname, name)
+//@   ensures failedcallee: isnil(esctemplate(e.ns, name)) || isnil(old(asref(esctemplate(e.ns, name), "TT_Template").Tree)) ==> r.state == stateError && !isnil(r.err)
 //@   ensures derivedok: forallkey(w, haskeym(e.derived, w) ==> !isnil(e.derived[w]))
 //@   ensures editkeys: forallref(p, haskeym(e.actionNodeEdits, p) || haskeym(e.templateNodeEdits, p) || haskeym(e.textNodeEdits, p) ==> !isnil(p))
